@@ -795,6 +795,7 @@ type Facts struct {
 	Uses        map[string][]string `json:"uses"`
 	Status      map[string]string   `json:"status"` // decl key -> ok | changed | missing | new
 	Problems    []string            `json:"problems"`
+	Translated  map[string]string   `json:"translated"` // function -> "" (translated) | reason it was refused
 	GenWritten  []string            `json:"gen_written"`
 }
 
@@ -837,6 +838,9 @@ func parseDir(fset *token.FileSet, dir, relPrefix string, tags []string) (files 
 	sort.Strings(order)
 	return files, order, nil
 }
+
+// the exported API (and, through calls, fromEntropy); lang.go's two methods are read structurally
+var translationRoots = []string{"NewMnemonicByEntropy", "NewMnemonic", "MnemonicToSeed", "CheckMnemonic", "IsMnemonicValid", "Language.String"}
 
 func main() {
 	repo := flag.String("repo", "/repo", "repository root")
@@ -1079,6 +1083,26 @@ func main() {
 	gen["Source.lean"] = sourceLean(&facts, allFiles)
 	gen["Gates.lean"] = gatesText
 	gen["Consts.lean"] = constsLean(&facts)
+	// --- the function bodies, translated
+	{
+		rootFiles := map[string]*ast.File{}
+		for rel, f := range allFiles {
+			if !strings.Contains(rel, "/") {
+				rootFiles[rel] = f
+			}
+		}
+		lc := []string{}
+		for _, c := range facts.Lang.Consts {
+			lc = append(lc, c[0])
+		}
+		tr := newTranslator(fset, rootFiles, lc, &facts.Problems)
+		tr.gateCond = gateHoles
+		code, status := tr.codeLean(translationRoots)
+		facts.Translated = status
+		for rel, c := range code {
+			gen[rel] = c
+		}
+	}
 	for rel, c := range gen {
 		ch, err := writeIfChanged(filepath.Join(*out, rel), c)
 		if err != nil {
@@ -1087,6 +1111,13 @@ func main() {
 		}
 		if ch {
 			facts.GenWritten = append(facts.GenWritten, rel)
+		}
+	}
+	if ents, err := os.ReadDir(filepath.Join(*out, "Code")); err == nil {
+		for _, e := range ents {
+			if _, ok := gen["Code/"+e.Name()]; !ok {
+				os.Remove(filepath.Join(*out, "Code", e.Name()))
+			}
 		}
 	}
 	// remove stale generated word tables
